@@ -6,7 +6,9 @@ that reach a message by reference through a request object (the DENM event posit
 re-established on every run) - fits the ASN.1 type at that position: shape (dict / (name, value) tuple / (bytes, bits)
 pair / enumerator string), member and alternative names, enumerators, mandatory members; range: for INTEGERs the range
 reachable from the quantifier's input ranges (interval interpretation with guard refinement; a value computed from the
-inputs with no bound at all fails); (b) unit: the scaling coefficient of position / speed / heading values; (c) what the
+inputs with no bound at all fails); (b) unit: the scaling coefficient of position / speed / heading values, also for stores into
+a dictionary that reaches the message by reference and through pure one-argument helpers, which are interpreted on
+representatives of the report field's input box and must return value x coefficient on all of it; (c) what the
 readers of decoded messages subscript exists in the type (schema); (d) that a measured value can never land on an
 element's `unavailable` code point (range, `codepoint` instances); (e) gdt: the receiver-side reconstruction as a
 formula identity (whole cycles of the reception time; same cycle exactly when not later than it, else one cycle
@@ -26,7 +28,7 @@ import re
 
 import copy
 
-from ..prog import AnalysisError, dotted, unparse
+from ..prog import AnalysisError, FuncInfo, dotted, unparse
 from .. import sem
 from ..absint import to_poly, Poly
 from ..flow import cond_atoms
@@ -90,12 +92,79 @@ class _GetAsSubscript(ast.NodeTransformer):
         return n
 
 
+def _helper_verdict(ctx, fi, e, params, key, coef):
+    """`H(report[key])` with H a pure helper of the repository (static method / function of one parameter): H is interpreted
+    (absint.MiniExec - nothing of the repository runs) on representatives of the report field's input box, boundaries and
+    interior points on both sides of every constant H compares with; on each of them it must return int(v * coef) (+-1 for
+    rounding).  -> (ok, text), or None when `e` is not such a call or H is outside the interpreted subset."""
+    P = ctx.prog
+    if not (isinstance(e, ast.Call) and len(e.args) == 1 and not e.keywords):
+        return None
+    tg = [t for t in P.call_targets(fi, e, count=False)]
+    if len(tg) != 1 or not isinstance(tg[0], FuncInfo) or tg[0].kind not in ("function", "staticmethod") or len(tg[0].params) != 1:
+        return None
+    a = e.args[0]
+    src = None
+    for p_ in params:
+        if sem.same(a, f"{p_}[{key!r}]"):
+            src = f"{p_}[{key!r}]"
+    if src is None:
+        return False, f"the helper {tg[0].short()} is fed `{sem.cx(a)[:50]}`, not <position report>[{key!r}]"
+    box = MU.INPUTS.get(f"tpv[{key!r}]")
+    if box is None:
+        return None
+    lo, hi = box
+    if key == "lon":
+        lo = lo + 1e-6          # -180 and +180 are one meridian; reports are normalised to (-180, 180]
+    pts = {lo, hi, (lo + hi) / 2, lo + (hi - lo) / 1000, hi - (hi - lo) / 1000}
+    for n_ in ast.walk(tg[0].node):                          # both sides of every constant the helper compares with
+        if isinstance(n_, ast.Compare):
+            for c_ in [n_.left] + n_.comparators:
+                v_ = P.try_fold(tg[0].module, c_)
+                if isinstance(v_, (int, float)) and not isinstance(v_, bool):
+                    for cand in (v_ / coef, v_ / coef - 1e-5 * max(1.0, abs(hi)), v_ / coef + 1e-5 * max(1.0, abs(hi)), float(v_)):
+                        if lo <= cand <= hi:
+                            pts.add(cand)
+    from .c10 import Exec
+    bad = []
+    for v in sorted(pts):
+        try:
+            got = Exec(P, tg[0], {tg[0].params[0]: v}).run()
+        except AnalysisError:
+            return None
+        except (TypeError, ValueError, ZeroDivisionError) as ex:
+            got = f"<{type(ex).__name__}>"
+        if not (isinstance(got, (int, float)) and abs(got - v * coef) <= 1):
+            bad.append(f"{tg[0].name}({v:g}) = {got}, the data element needs {int(v * coef)}")
+    if bad:
+        return False, (f"{src} ranges over [{lo:g}, {hi:g}] and goes through {tg[0].short()}, which does not return value x {coef} on all of it: "
+                       + "; ".join(bad[:2]))
+    return True, f"{src} x {coef} through {tg[0].short()} (interpreted on {len(pts)} points of [{lo:g}, {hi:g}])"
+
+
 def units(ctx, M, kind):
     """Every computed value stored into a unit-carrying data element is <the matching entry of the position report> x
     <unit coefficient> (integer conversion and clamping by constants aside); constants are the element's code points."""
     P = ctx.prog
     n = 0
-    for s in M.stores(kind):
+    # stores into a dictionary that reaches the message by reference (the EVA event position) carry the same units
+    alias_stores = []
+    for al in MU.ALIASES:
+        if al["kind"] != kind:
+            continue
+        for fi_ in P.cls(al["owner"]).methods.values():
+            fl_ = ctx.flows.get(fi_)
+            for a_ in ast.walk(fi_.node):
+                if not (isinstance(a_, ast.Assign) and len(a_.targets) == 1 and id(a_) in fl_.before):
+                    continue
+                keys, cur = [], a_.targets[0]
+                while isinstance(cur, ast.Subscript):
+                    k_ = P.try_fold(fi_.module, cur.slice, default=None)
+                    keys.append(k_)
+                    cur = cur.value
+                if keys and None not in keys and dotted(cur) == f"self.{al['attr']}":
+                    alias_stores.append(MU.Store(kind, fi_, a_, list(al["path"]) + keys[::-1], a_.value))
+    for s in list(M.stores(kind)) + alias_stores:
         u = unit_of([k for k in s.path])
         if u is None:
             continue
@@ -110,6 +179,12 @@ def units(ctx, M, kind):
                     continue          # out-of-range / unavailable code point
                 n += 1
                 inner = _GetAsSubscript().visit(_measured(P, s.fi.module, x))
+                hv = _helper_verdict(ctx, s.fi, inner, params, key, coef)
+                if hv is not None:
+                    ok_h, why_h = hv
+                    ctx.ob("C11.unit", s.fi.short(), f"{kind}.{leaf}", ok_h,
+                           f"{kind} {leaf} := `{pretty(unparse(x))[:60]}`: {why_h}", f"{s.fi.module.rel}:{s.stmt.lineno}")
+                    continue
                 got = to_poly(P, s.fi.module, inner)
                 wants = [to_poly(P, s.fi.module, ast.parse(f"{p}[{key!r}] * {coef}", mode="eval").body) for p in params]
                 ok = any(got == w for w in wants)
